@@ -91,6 +91,29 @@ SPECS = {
         ("src/model.rs", "ElementId"),
         ("src/model.rs", "ModelData"),
     ],
+    "BinrwMs": [
+        ("src/mtrl.rs", "MaterialFileHeader"),
+        ("src/mtrl.rs", "MaterialHeader"),
+        ("src/mtrl.rs", "ColorSet"),
+        ("src/mtrl.rs", "ShaderKey"),
+        ("src/mtrl.rs", "ConstantStruct"),
+        ("src/mtrl.rs", "MaterialData"),
+        ("src/shpk.rs", "MaterialParameter"),
+        ("src/shpk.rs", "Key"),
+        ("src/shpk.rs", "Pass"),
+        ("src/shpk.rs", "NodeAlias"),
+        ("src/shpk.rs", "ShaderPackage"),
+    ],
+    "BinrwPatch": [
+        ("src/common.rs", "Platform"),
+        ("src/common.rs", "Region"),
+        ("src/patch.rs", "SqpkTargetInfo"),
+        ("src/patch.rs", "SqpkAddData"),
+        ("src/patch.rs", "SqpkDeleteData"),
+        ("src/patch.rs", "SqpkPatchInfo"),
+        ("src/patch.rs", "ApplyOption"),
+        ("src/patch.rs", "ApplyOptionChunk"),
+    ],
     "BinrwAux": [
         ("src/cmp.rs", "RacialScalingParameters"),
         ("src/tera.rs", "PlatePosition"),
@@ -354,11 +377,12 @@ def parse_magic(v):
 def parse_enum(attrs, body):
     ds = directives(attrs)
     repr_t = None
+    enum_endian = None
     for k, v in ds:
         if k == "repr":
             repr_t = v.strip().strip("()").strip()
         elif k in ("little", "big"):
-            pass
+            enum_endian = k      # the enum's own attribute wins over the endianness passed by the field
         else:
             raise Unsupported("enum-level `%s`" % k)
     if repr_t not in PRIMS or repr_t == "f32":
@@ -375,7 +399,7 @@ def parse_enum(attrs, body):
             nxt = int_lit(m.group(2))
         vals.append(nxt % (1 << (8 * PRIMS[repr_t])))
         nxt += 1
-    return {"kind": "enum", "repr": repr_t, "valid": vals}
+    return {"kind": "enum", "repr": repr_t, "valid": vals, "endian": enum_endian}
 
 
 def parse_type(t, ds, known, fields):
@@ -500,6 +524,9 @@ def parse_struct(attrs, body, bracket, known):
                 if k == "map":
                     ty = map_read_type(v)
             f["kind"] = parse_type(ty, ds, known, res["fields"])
+            tb = known.get(ty.split("::")[-1])
+            if tb and tb["kind"] == "enum" and tb.get("endian"):
+                f["endian"] = tb["endian"]
             res["fields"].append(f)
     except Unsupported as e:
         res["complete"] = False
